@@ -35,7 +35,7 @@ func init() {
 		Reach:       []string{"mutator", "file-mutator", "reader"},
 		Explanation: "Bounded symbolic execution of every mutating VFS method (17) and File method (7) of RoFS over seeded MemFS/OrefaFS bases, called directly and through the file system returned by Sub, with fully symbolic flags, permissions, uid/gid, sizes and offsets; assertion: the snapshot of the whole base (tree, bytes, modes, owners, modification times; time.Now is a strictly increasing counter so every write is visible) is identical before and after, the error is permission-class, and anything handed out (files) cannot write either. Ten read-only calls are compared with the base's own answer.",
 		Bounds: func(tier string) map[string]any {
-			return map[string]any{"history": "1 call (+ Sub / Open before it, + write attempts on returned files)", "operands": 6, "seed_trees": map[string]string{"quick": "1,3", "thorough": "1,2,3"}[tier], "scalars": "full 64/32-bit range", "outside": "longer histories (the wrapper is stateless apart from forwarding Chdir/SetUMask/SetUser)"}
+			return map[string]any{"history": "1 call (+ Sub / Open before it, + write attempts on returned files)", "operands": "6 absolute + 6 relative (after Chdir through the view; second operand absolute or relative)", "seed_trees": map[string]string{"quick": "1,3", "thorough": "1,2,3"}[tier], "scalars": "full 64/32-bit range", "outside": "longer histories (the wrapper is stateless apart from forwarding Chdir/SetUMask/SetUser)"}
 		},
 	})
 }
